@@ -274,15 +274,40 @@ def gen_plan(rng, tier, idx):
                 motif = motif[2:] + motif[:2]
             pos = rng.randint(0, len(ops))
             ops[pos:pos] = motif
-    # motif: ONE equation object whose conditions are given by name meets two grids that differ in nothing but their
-    # periodicity (same class, shape and bounds)
+    # motif: ONE equation object whose conditions are given by name meets two grids that differ in nothing but ONE
+    # attribute: the periodicity of an axis (same class, shape and bounds), or a bound that differs by a few parts per
+    # million, or bounds that are both tiny in absolute terms (nanometre boxes in SI units)
     if rng.random() < 0.3:
-        cand = [g for g in grids.values() if "periodic" in g and g["cls"] in ("UnitGrid", "CartesianGrid", "CylindricalSymGrid")]
+        how = rng.choice(["periodic", "periodic", "near", "tiny"])
+        if how == "periodic":
+            cand = [g for g in grids.values() if "periodic" in g and g["cls"] in ("UnitGrid", "CartesianGrid", "CylindricalSymGrid")]
+        else:
+            cand = [g for g in grids.values() if g["cls"] in ("CartesianGrid", "PolarSymGrid", "SphericalSymGrid")]
         if cand:
             ga = copy.deepcopy(rng.choice(cand))
             gb = copy.deepcopy(ga)
-            ax = len(gb["periodic"]) - 1 if gb["cls"] == "CylindricalSymGrid" else rng.randrange(len(gb["periodic"]))
-            gb["periodic"][ax] = not gb["periodic"][ax]
+            if how == "periodic":
+                ax = len(gb["periodic"]) - 1 if gb["cls"] == "CylindricalSymGrid" else rng.randrange(len(gb["periodic"]))
+                gb["periodic"][ax] = not gb["periodic"][ax]
+            else:
+                eps = rng.choice([3e-6, 1e-7, 4e-9])
+                if ga["cls"] == "CartesianGrid":
+                    ax = rng.randrange(len(ga["bounds"]))
+                    if how == "tiny":
+                        ga["bounds"] = [[0, 4e-9] for _ in ga["bounds"]]
+                        gb["bounds"] = [[0, 4e-9] for _ in gb["bounds"]]
+                        gb["bounds"][ax] = [0, 8e-9]
+                    else:
+                        lo, hi = gb["bounds"][ax]
+                        gb["bounds"][ax] = [lo, hi + (hi - lo) * eps]
+                else:
+                    r = ga["radius"]
+                    if how == "tiny":
+                        ga["radius"], gb["radius"] = 4e-9, 8e-9
+                    elif isinstance(r, list):
+                        gb["radius"] = [r[0], r[1] * (1 + eps)]
+                    else:
+                        gb["radius"] = r * (1 + eps)
             na, nf, ne = len(grids), len(fields), len(eqs)
             grids[f"g{na}"], grids[f"g{na + 1}"] = ga, gb
             fields[f"f{nf}"] = {"grid": f"g{na}", "rank": 0, "dtype": "float", "seed": rng.randrange(1 << 30)}
